@@ -65,7 +65,7 @@ def run_profile(scratch, nat, release, prop, tier, qs, info):
     log("  [%s] translator validation: %d vectors agree with the real code" % (profile, n))
     # property queries
     t = time.time()
-    timeout_ms = 20000 if tier == "quick" else 120000
+    timeout_ms = 60000 if tier == "quick" else 180000
     findings = []
     for s in summaries:
         findings += Q.check_summary(s, profile, qs, timeout_ms=timeout_ms, seed=V.seed(),
